@@ -15,12 +15,22 @@ protocol (one output line per input line)
         en   wrapper adapter.en at the edge        done  adapter.done at the edge (= method ran)
         ret  adapter.data_out if done else -       app   payloads of the mock effects applied after this edge
         evt  - | c:<v> (call returned v) | t:<v> | t:- (call_try returned v / None)
+
+  multi-call CallTrigger (three plain methods, method m returns (arg + val + 7*m) mod 2^w, ready iff g bit):
+  cfg mode=trig w=6 prog=k,U:c0.5+c1.9+s2+v,A:c0.3+c1.4,O:c1.7,k
+      k = tick; O/U/A = await once / until_done / until_all_done of the trigger with entries joined by `+`:
+      c<m>.<d> = .call(method m, d), s<m> = .sample(method m), v = .sample(val signal)
+  cyc g=101 x=-,-,5 val=9       g = ready bit per method, x = data another agent enables the adapter with (`-` none)
+      → en=101 done=100 evt=12/9/3    adapter.en / adapter.done per method; evt = returned tuple joined by `/`
+        (a None element is printed as a dash), or a single dash when nothing is returned
 -/
 
 structure DState where
   f : MockFn
   s : Sys
   ok : Bool
+  trig : Option TCaller := none     -- `mode=trig`
+  w : Nat := 1
 
 def mkFn (w ka kb kc ne : Nat) : MockFn :=
   { ret := fun log arg => (ka * arg + kb * log.length + kc * log.sum) % 2 ^ w,
@@ -61,6 +71,49 @@ def parseCyc (t : List String) : Option CycIn := do
   let val ← nat? t "val"
   pure { phases := ps, e := e, men := men, val := val }
 
+def parseEntry (s : String) : Option Entry :=
+  if s == "v" then some .value
+  else match s.toList with
+    | 's' :: r => (String.ofList r).toNat?.map .samp
+    | 'c' :: r =>
+      match (String.ofList r).splitOn "." with
+      | [m, d] => do pure (.call (← m.toNat?) (← d.toNat?))
+      | _ => none
+    | _ => none
+
+def parseTCmd (s : String) : Option TCmd :=
+  if s == "k" then some .tick
+  else match s.splitOn ":" with
+    | [m, es] => do
+      let mode ← if m == "O" then some Mode.once else if m == "U" then some .anyDone
+                 else if m == "A" then some .allDone else none
+      let es ← (es.splitOn "+").mapM parseEntry
+      pure (.trig es mode)
+    | _ => none
+
+def parseTrigCfg (t : List String) : Option DState := do
+  let w ← nat? t "w"
+  let ps ← kv? t "prog"
+  let prog ← if ps == "-" then some [] else (ps.splitOn ",").mapM parseTCmd
+  pure { DState.empty with ok := true, trig := some { prog := prog }, w := w }
+
+def parseOptNat (s : String) : Option (Option Nat) :=
+  if s == "-" then some none else s.toNat?.map some
+
+def parseTEnv (w : Nat) (t : List String) : Option TEnv := do
+  let g ← (← kv? t "g").toList.mapM fun c => if c == '1' then some true else if c == '0' then some false else none
+  let x ← ((← kv? t "x").splitOn ",").mapM parseOptNat
+  let val ← nat? t "val"
+  if g.length != 3 || x.length != 3 then none
+  pure { ext := fun m => (x.getD m none).map (· % 2 ^ w), grant := fun m => g.getD m false,
+         out := fun m a => (a + val + 7 * m) % 2 ^ w, value := val % 2 ^ w }
+
+def showBits (f : Nat → Bool) : String := String.join ((List.range 3).map fun m => showBool (f m))
+
+def showTuple : Option (List (Option Nat)) → String
+  | none => "-"
+  | some rs => "/".intercalate (rs.map showOpt)
+
 def showEvt : Option Evt → String
   | none => "-"
   | some (.called v) => s!"c:{v}"
@@ -70,11 +123,23 @@ def stepLine (st : DState) (line : String) : DState × String :=
   let t := tokens line
   match t.head? with
   | some "cfg" =>
+    if kv? t "mode" == some "trig" then
+      match parseTrigCfg t with
+      | some s => (s, "ok")
+      | none => (DState.empty, "bad-cfg")
+    else
     match parseCfg t with
     | some s => (s, "ok")
     | none => (DState.empty, "bad-cfg")
   | some "cyc" =>
     if !st.ok then (st, "bad-op") else
+    if let some c := st.trig then
+      match parseTEnv st.w t with
+      | none => (st, "bad-op")
+      | some e =>
+        let (c', o) := c.step e
+        ({ st with trig := some c' }, s!"en={showBits o.en} done={showBits o.done} evt={showTuple o.evt}")
+    else
     match parseCyc t with
     | none => (st, "bad-op")
     | some i =>
